@@ -89,7 +89,7 @@ func Ambiguous(spec *ImageSpec) string {
 		seen := map[string]string{}
 		for i := range l.Entries {
 			e := &l.Entries[i]
-			if e.Raw != "" || e.Path == "" || path.Clean(e.Path) != e.Path || strings.HasPrefix(e.Path, "/") || strings.HasPrefix(e.Path, "..") {
+			if e.Raw != "" || e.Path == "" || path.Clean(e.Path) != e.Path || strings.HasPrefix(e.Path, "/") || e.Path == ".." || strings.HasPrefix(e.Path, "../") {
 				return "entry without a clean relative path"
 			}
 			for _, seg := range strings.Split(e.Path, "/") {
